@@ -3,9 +3,9 @@ from . import coll_common as CC
 from oracles import shapes as SH
 
 FUNCTIONS = ["distance3d.containment_test.points_in_{sphere,capsule,ellipsoid,disk,cone,cylinder,box,convex_mesh}",
-             "distance3d.utils.invert_transform"]
+             "distance3d.utils.invert_transform", "distance3d.distance.point_to_cylinder/point_to_disk/point_to_box (agreement clause)"]
 STUBS = []
-OUTSIDE = ["agreement with point_to_<shape> distance and with the support function (follows from C10/C03 oracles, not re-posed here)",
+OUTSIDE = ["agreement with point_to_ellipsoid (Newton iteration, outside reach) and with the support function (follows from the C03 oracle, not re-posed)",
            "rounding"]
 BOUNDS = {"quick": "query point FULLY symbolic (3 reals in [-3,3]^3 around the shape), batches of 1-3 points with the symbolic one at every position; 8 predicates x 4 signed-permutation poses + rotation sweep about one axis (4 reals)",
           "thorough": "all 24 poses, 3 rotation sweeps, larger sizes"}
@@ -28,7 +28,7 @@ EXTRA = {"sphere": [[0.5, 0.0, 0.0], [0.0, 0.0, 0.0]],
 
 def jobs(tier, seed):
     J = []
-    shapes = [s for s in SH.CORPUS if s["type"] in CC.PRED]
+    shapes = [s for s in SH.CORPUS if s["type"] in CC.PRED and not str(s.get("mesh", "")).endswith("_mixed")]
     if tier != "quick":
         shapes += [s for s in SH.CORPUS_MORE if s["type"] in CC.PRED]
     for sh in shapes:
